@@ -94,7 +94,7 @@ def run(ctx):
     build("vfiles")
     pool = POOL_SORTED
     if ctx.replay:
-        run_harness(ctx, "vfiles", ["c27", "--replay", ctx.replay, "--out", ctx.path("res.json")])
+        run_harness(ctx, "vfiles", ["c27", "--replay", os.path.abspath(ctx.replay), "--out", ctx.path("res.json")])
         res = json.load(open(ctx.path("res.json")))
         for v in res["violations"]:
             report_violation(ctx, v, key=known_key(v))
